@@ -66,8 +66,9 @@ def build_harness(outdir, ks=(1, 2, 3, 8), sanitize=True, extra=(), noproj=False
     with ThreadPoolExecutor(max_workers=min(len(ks), NCPU)) as ex:
         for k, exe, rc, log in ex.map(one, ks):
             if rc != 0:
-                if not noproj and "cat_object" in log:
-                    # the public struct was refactored: fall back to the observable grain (DESIGN 4.1)
+                if not noproj:
+                    # the harness reads the public struct for the step-grain projection: when that does not compile (the struct was
+                    # refactored) fall back to the observable grain (DESIGN 4.1); a second failure is a real build problem
                     return build_harness(outdir, ks, sanitize, extra, True, tag)
                 raise MachineryError("harness build failed for k=%d:\n%s" % (k, log[-4000:]))
             out[k] = exe
